@@ -43,6 +43,12 @@ func TestVerifC11(t *testing.T) {
 						c11MPD = ""
 					}
 				}
+				// the server's clock shifted by a whole number of segments: the same walk, 8 s later / earlier
+				for _, off := range []string{"timeoffset_8", "timeoffset_-8"} {
+					c11Extra = off
+					c11Run(rep, srv, a, "testpic_2s", 10, "tltime", 0, 60, 0, true, false, 0)
+					c11Extra = ""
+				}
 			}
 		}
 	}
@@ -96,6 +102,9 @@ func TestVerifC11(t *testing.T) {
 	}
 }
 
+// c11Extra, if set, is a further configuration part of the walked URLs (a clock offset: the same MPDs, shifted)
+var c11Extra string
+
 // c11MPD, if set, is the MPD of the asset that c11Run walks (default: the first one that lists the reference track)
 var c11MPD string
 
@@ -134,6 +143,9 @@ func c11Run(rep *vh.Report, srv *Server, a *vref.VAsset, asset string, ttl int, 
 	}
 	if atoMS > 0 {
 		parts = append(parts, fmt.Sprintf("ato_%d.%03d", atoMS/1000, atoMS%1000))
+	}
+	if c11Extra != "" {
+		parts = append(parts, c11Extra)
 	}
 	prefix := vCfgPrefix(parts...)
 	// instants: every availability instant (+-1 ms) from a base far enough for a full window, over TTL + 2 segments
